@@ -232,6 +232,7 @@ pub fn run_all(cx: &Cx) -> Acc {
                                 plan: vec![PStep::Chunk(300)],
                                 faults: vec![],
                                 tail: vec![],
+                                segments: 0,
                             },
                             req,
                         };
